@@ -23,6 +23,9 @@ K3 (tail recursion → loop, `mir_tail_recursion_rewrite.rs`; loop update `wasm_
 * `tailrec_stmt_equiv` (K3b, `Model/TailStmt.lean`): the rewrite over full MIR statement lists
   (return collectors, final assignments, `Break` values, temporaries, non-tail self calls) preserves
   the function's result for all arguments and fuel, under the front-end shape `good`;
+* `lowered_update_parallel`: what LIR lowering emits for the loop variables of any `While` (snapshot
+  casts when a loop value is another loop variable — fix c8954cc, finding C01-F4 — then assignments in
+  order) is the parallel update, whatever the optimizer made of the loop values;
 * `tailrec_equiv_seq` (full strength, the loop as the backends run it), `tailrec_equiv_par`,
   `seqAssign_eq_par_partial` / `_counterexample` (why the snapshot of fix c57720b is needed),
   `swap_regression`. History: before fix c57720b (finding C01-F2) `swap(1, 2, 1)` gave 22.
@@ -423,6 +426,39 @@ theorem tailrec_equiv_seq (ev : Op → Int → Int → Option Int) (params : Lis
         have hnb := noBackwardRef_of_char params args ((readsOther_false_iff params args).mp hro')
         rw [seqAssign_eq_par params args env' hnd hlen hnb]
         exact ih _
+
+/-- **Lowered loop update = parallel update.** What LIR lowering emits for the loop variables of a
+`While` (the optional snapshot casts, then the assignments in order) gives every loop variable the
+value its loop value had at the end of the iteration — whatever the loop values are. Hypotheses:
+distinct loop variables, one loop value per variable, and fresh temporaries (distinct, not loop
+variables, not read by the loop values). -/
+theorem lowered_update_parallel (names : List Name) (args : List Expr) (temps : List Name) (env : Env)
+    (hnd : names.Nodup) (hlen : args.length = names.length) (htl : temps.length = names.length)
+    (htn : temps.Nodup) (hdisj : ∀ t ∈ temps, t ∉ names) (hfresh : ∀ a ∈ args, ∀ t ∈ temps, a ≠ .var t) :
+    names.map (seqAssign (seqAssign env (lowerLoopUpdate names args temps).1)
+        (names.zip (lowerLoopUpdate names args temps).2)) = args.map (Expr.eval env) := by
+  unfold lowerLoopUpdate
+  by_cases hro : readsOther names args = true
+  · simp only [hro, if_true]
+    -- the casts: every temporary receives the value of its loop value
+    have hA := seqAssign_eq_par temps args env htn (by omega) (noBackwardRef_of_disjoint temps args hfresh)
+    -- the assignments: every loop variable receives its temporary
+    have hB := seqAssign_eq_par names (temps.map Expr.var) (seqAssign env (temps.zip args)) hnd
+      (by simp [htl]) (noBackwardRef_of_disjoint names (temps.map Expr.var) (by
+        intro a ha p hp hap
+        obtain ⟨t, ht, rfl⟩ := List.mem_map.mp ha
+        cases hap
+        exact hdisj p ht hp))
+    rw [hB, List.map_map]
+    have : (Expr.eval (seqAssign env (temps.zip args)) ∘ Expr.var) = seqAssign env (temps.zip args) := by
+      funext t; rfl
+    rw [this]
+    exact hA
+  · have hro' : readsOther names args = false := by simpa using hro
+    simp only [hro', Bool.false_eq_true, if_false, seqAssign]
+    exact seqAssign_eq_par names args env hnd hlen
+      (noBackwardRef_of_char names args ((readsOther_false_iff names args).mp hro'))
+
 
 /-- `swap(a, b, n) = if n == 0 { a * 10 + b } else { swap(b, a, n - 1) }` -/
 def swapBody : Body :=
